@@ -23,7 +23,7 @@ CONFIGS = [
       "replace_function_return_boolean"]),
     ("GenA64M", {"target_os": "macos", "target_arch": "aarch64", "unix": True}, 64,
      ["injector_core/common.rs", "injector_core/utils.rs", "injector_core/arm64_codegenerator.rs", "injector_core/patch_arm64.rs"],
-     ["maybe_emit_long_jump", "apply_branch_patch"]),
+     ["maybe_emit_long_jump", "apply_branch_patch", "allocate_jit_memory_unix", "replace_function_with_other_function", "replace_function_return_boolean"]),
     ("GenA32", {"target_os": "linux", "target_arch": "arm", "unix": True}, 32,
      ["injector_core/common.rs", "injector_core/patch_arm.rs"],
      ["replace_function_with_other_function"]),
